@@ -97,7 +97,8 @@ def run_block(machine_name, verif_seed, tier, profile, start, count,
     if res.get('violation'):
       out['violations'].append(
           {'index': i, 'desc': desc, 'violation': res['violation']})
-    if len(out['samples']) < 1 and res.get('nontrivial'):
+    if (len(out['samples']) < 1 and res.get('nontrivial') and
+        len(desc.get('ops') or ()) <= 200):
       out['samples'].append(desc)
   for f in ('states', 'transitions', 'signatures'):
     out[f] = sorted(out[f])
